@@ -34,6 +34,8 @@ V = {
     "debug": '#[::entrait::entrait(A14, debug)]\nfn a14(deps: &impl ::core::any::Any, x: i64) -> i64 { x }',
     # functions of one module repeating their (several) where-predicates on a shared type parameter
     "where_dup": '#[::entrait::entrait(pub A15)]\npub mod m15 {\n    pub fn a<T>(deps: &impl ::core::any::Any, t: T) where T: ::core::fmt::Display, T: ::core::fmt::Debug, T: Clone, T: Send {}\n    pub fn b<T>(deps: &impl ::core::any::Any, t: T) where T: ::core::fmt::Display, T: ::core::fmt::Debug, T: Clone, T: Send {}\n}',
+    # a DYNAMIC delegation whose target trait is named like the static one of "traitimpl" (the impl block of "implblock" belongs to that one)
+    "traitimpl_dyn_same_name": 'pub mod other {\n#[::entrait::entrait(A4Impl, delegate_by = ref)]\npub trait A4d { fn m(&self, a: i64, b: i64) -> i64; }\n}',
     "rename": '#[::entrait::entrait(A9)]\nfn a9(deps: &impl ::core::any::Any, a9: i64, a9_: i64, a9__: i64, (u, v): (u8, u8)) {}',
 }
 VN = list(V)
@@ -48,6 +50,10 @@ ENVS = {
     "build_env": {"DOCS_RS": "1", "CI": "true", "PROFILE": "release", "DEBUG": "false", "OPT_LEVEL": "3", "CARGO_CFG_TEST": "1",
                   "CARGO_FEATURE_UNIMOCK": "1", "CARGO_PKG_NAME": "x", "CARGO_PRIMARY_PACKAGE": "1", "RUST_LOG": "trace", "NO_COLOR": "1",
                   "TERM": "dumb", "ENTRAIT_DEBUG": "1", "CARGO_ENCODED_RUSTFLAGS": "--cfg\x1ftest"},
+    # what a build script would see for another target
+    "other_target": {"CARGO_CFG_TARGET_ARCH": "wasm32", "CARGO_CFG_TARGET_OS": "unknown", "CARGO_CFG_TARGET_FAMILY": "wasm", "CARGO_CFG_TARGET_POINTER_WIDTH": "32",
+                     "CARGO_CFG_PANIC": "abort", "CARGO_CFG_TARGET_FEATURE": "atomics", "CARGO_CFG_UNIX": None, "TARGET": "wasm32-unknown-unknown",
+                     "HOST": "x86_64-unknown-linux-gnu", "RUSTFLAGS": "-C target-feature=+atomics", "CARGO_BUILD_TARGET": "wasm32-unknown-unknown"},
 }
 
 
